@@ -130,7 +130,7 @@ fn selftest_determinism(args: &[String]) -> i32 {
                 bad += 1;
                 continue;
             }
-            if a.run_hashes != b.run_hashes || a.run_hashes.len() as u64 != runs || a.exit != b.exit {
+            if a.run_hashes != b.run_hashes || (a.run_hashes.len() as u64) < runs || a.exit != b.exit {
                 eprintln!(
                     "selftest: NON-DETERMINISM for {} seed {}: {} vs {} run hashes, exits {} / {}",
                     e.id(),
